@@ -196,9 +196,23 @@ class Exec:
                 return L.numval(v.t)
         if kind == 'int' and v.kind == 'ref':
             return z3.ToInt(L.numval(v.t))
+        if kind == 'set' and v.kind == 'list':
+            # A-LISTSET: a list of pairwise distinct elements handed to code that only iterates it,
+            # tests it for emptiness or passes it to asyncio.wait is abstracted as the set of its elements
+            self.oblige_distinct(v, st)
+            return st.alloc_set(self.as_setvalue(v, st), prefix='listset')
         if kind in ('set', 'list') and v.kind in ('ref', 'set', 'list'):
             return v.t
+        if kind == 'coro':
+            return v
         raise Unsupported('cannot coerce %s to %s' % (v.kind, kind))
+
+    def oblige_distinct(self, v, st):
+        i, j = L.fresh('i', L.I), L.fresh('i', L.I)
+        n = st.llen(v.t)
+        self.oblige(st, 'list-as-set:elements-distinct',
+                    L.FA([i, j], z3.Implies(z3.And(0 <= i, i < j, j < n), st.lat(v.t, i) != st.lat(v.t, j))),
+                    'call-pre')
 
     def wrap(self, kind, t):
         return V(kind, t)
@@ -231,6 +245,8 @@ class Exec:
         for f in L.all_field_names():
             st.H(f)
         st.assume(WF.wf_assume(st))
+        if getattr(c, 'ghost_init', None):
+            c.ghost_init(st)
         for (name, kind, _d) in c.params:
             kind = str(kind).replace('kw:', '')
             if kind in ('ref', 'set', 'list', 'varargs'):
@@ -281,6 +297,15 @@ class Exec:
             for lab, fm in WF.wf_obligations(st, self.all_modified(st)):
                 self.oblige(st, 'wf:' + lab, fm, 'post', ctx, extra=hints)
             self.frame_obligations(st)
+        elif out.kind == 'raise' and out.cls == '$any':
+            # class known only logically: one case per declared exceptional outcome, rest unreachable
+            rest = st.copy()
+            for k in c._raises:
+                s2 = st.copy()
+                s2.assume(L.isa[k](out.val))
+                rest.assume(z3.Not(L.isa[k](out.val)))
+                self.finish(s2, Out('raise', out.val, k))
+            self.oblige(rest, 'no-raise:unknown-class', z3.BoolVal(False), 'post-exc', self.mkctx(rest))
         elif out.kind == 'raise':
             st.trace.append('raise %s' % out.cls)
             spec = None
@@ -295,7 +320,7 @@ class Exec:
             else:
                 if c.ghost_on_return:
                     c.ghost_on_return(st, ctx)
-                hints = c.post_hints(ctx) if c.post_hints else []
+                hints = self.prove_lemmas(st, c.post_hints(ctx), ctx, 'post-exc') if c.post_hints else []
                 for label, fn in spec:
                     self.oblige(st, label, fn(ctx), 'post-exc', ctx, extra=hints)
                 for lab, fm in WF.wf_obligations(st, self.all_modified(st)):
@@ -310,7 +335,7 @@ class Exec:
 
     def frame_obligations(self, st):
         """fields outside the modifies clause must be unchanged (whole array equality)"""
-        allowed = set(self.c._modifies)
+        allowed = set(self.c._modifies) | set(self.c.rely_fields)
         for f in self.all_modified(st):
             if f in allowed:
                 continue
@@ -320,6 +345,13 @@ class Exec:
                 self.oblige(st, 'frame:$alive-monotone',
                             L.FA([o], z3.Implies(self.entry.alive(o), st.alive(o)),
                                  patterns=[st.alive(o)]), 'frame')
+                continue
+            if f in ('$setrole', '$setowner'):
+                # allocation metadata of fresh containers: only pre-existing objects are framed
+                o = L.fresh('o', L.Ref)
+                self.oblige(st, 'frame:%s-of-old-objects' % f,
+                            L.FA([o], z3.Implies(self.entry.alive(o), st.f(f, o) == self.entry.f(f, o)),
+                                 patterns=[st.f(f, o)]), 'frame')
                 continue
             self.oblige(st, 'frame:' + f, st.heap[f] == self.entry.heap[f], 'frame')
 
@@ -376,7 +408,10 @@ class Exec:
 
     def st_Raise(self, s, st):
         if s.exc is None:
-            raise Unsupported('bare raise')
+            cur = st.g.get('$handling')
+            if cur is None:
+                raise Unsupported('bare raise outside an except block')
+            return [(st, Out('raise', cur[1], cur[0]))]
         res = []
         for st2, val in self.ev(s.exc, st):
             if isinstance(val, Raised):
@@ -449,7 +484,13 @@ class Exec:
             if f not in L.FIELD_KINDS:
                 raise Unsupported('store to unknown attribute %s' % tgt.attr)
             kind = L.FIELD_KINDS[f]
-            st.setf(f, obj.t, self.coerce(val, kind, st))
+            newval = self.coerce(val, kind, st)
+            guard = getattr(self.c, 'store_guard', None)
+            if guard is not None:
+                # rely/guarantee: every store of a coroutine must be one its guarantee allows
+                self.oblige(st, 'guarantee[store %s]' % f, guard(self.mkctx(st), f, obj.t, newval),
+                            'guarantee', lineno=getattr(tgt, 'lineno', None))
+            st.setf(f, obj.t, newval)
             if kind == 'set' and f in WF.ROLE:
                 st.setf('$setowner', val.t, obj.t)
                 st.setf('$setrole', val.t, z3.IntVal(WF.ROLE[f]))
@@ -573,7 +614,14 @@ class Exec:
                         if h.name:
                             st2.env[h.name] = V('ref', out.val, out.cls)
                         st2.trace.append('L%d:except' % h.lineno)
-                        res.extend(self.block(h.body, st2))
+                        saved = st2.g.get('$handling')
+                        st2.g['$handling'] = (out.cls, out.val)
+                        for st3, o3 in self.block(h.body, st2):
+                            if saved is None:
+                                st3.g.pop('$handling', None)
+                            else:
+                                st3.g['$handling'] = saved
+                            res.append((st3, o3))
                         handled = True
                         break
                 if not handled:
@@ -821,10 +869,16 @@ class Exec:
                                    z3.Select(st.H('$lat'), ent['iterlist']) == ent['lat'])))
         return out
 
+    def coerce_loop_vars(self, st, spec):
+        for name, kind in (getattr(spec, 'var_kinds', None) or {}).items():
+            if name in st.env and st.env[name].kind != kind:
+                st.env[name] = V(kind, self.coerce(st.env[name], kind, st))
+
     def st_While(self, s, st):
         k, spec = self.loop_spec(s)
         if s.orelse:
             raise Unsupported('while/else')
+        self.coerce_loop_vars(st, spec)
         loop_pre = st.copy()
         kw = dict(loop_pre=loop_pre)
         names, fields = self.assigned_in(s.body, st)
